@@ -17,4 +17,15 @@ let obs_of_iout (o : iout) : obs list =
 let step (cfg : gw_cfg) (s : gw_state) (ev : gw_event) (iouts : iout list) : (string * string) list =
   let os = List.concat_map obs_of_iout iouts in
   let tag p l = List.map (fun c -> (p, "clause" ^ string_of_int (int_of_n c))) l in
-  tag "C14" (chk_C14 ev os) @ tag "C01" (chk_C01 cfg s ev os) @ tag "C23" (chk_C23 os) @ tag "C24" (chk_C24 os)
+  let c24 =
+    (* one failure per violated MQTT 3.1.1 rule, so that known findings match rule by rule *)
+    List.concat_map (fun (o : iout) ->
+        match split_on ' ' o.text with
+        | "MQ" :: kind :: _ when o.bad <> "" ->
+          List.map (fun r -> ("C24", "invalid-mqtt rule=" ^ r ^ " kind=" ^ kind)) (split_on ',' o.bad)
+        | "MQGARBAGE" :: _ -> [("C24", "invalid-mqtt rule=garbage kind=?")]
+        | _ -> []) iouts in
+  let c24m = if c24 = [] then tag "C24" (chk_C24 os) else [] in
+  tag "C14" (chk_C14 ev os) @ tag "C01" (chk_C01 cfg s ev os) @ tag "C23" (chk_C23 os) @ c24 @ c24m
+  @ tag "C03" (chk_C03 cfg s ev os) @ tag "C04" (chk_C04 cfg s ev os) @ tag "C07" (chk_C07 cfg s ev os)
+  @ tag "C08" (chk_C08 cfg s ev os) @ tag "C09" (chk_C09 cfg s ev os) @ tag "C11" (chk_C11 cfg s ev os)
